@@ -13,6 +13,9 @@ CHECKS = {
  "C06": ("Generated structured bodies (depth <= 4/5) x both counting-jump flavours x 8 valuations; AstVm before vs after passes::desugar_blocks::run: call log, final time, real time, all registers.",
          "Differential: an error common to AstVm on both sides is invisible. Time labels non-decreasing, times counts >= 0, no difficulty labels nested inside a labelled structured statement (DESIGN.md 5b).",
          "property-based differential testing (same interpreter before/after the pass)"),
+ "C07": ("Instruction streams from lowered structured programs and from random/shaped jump graphs (shared targets, jumps into bodies, explicit times, interrupt labels, difficulty tags) x 8 valuations: AstVm of decompile(blocks=false) vs decompile(blocks=true) (flattened by desugar_blocks when the recovered form contains a jump into a block), plus structural invariants: referenced labels defined exactly once, explicit-time jumps kept, time-label statements unchanged.",
+         "Differential with AstVm on both sides. Explicit jump times are the previous instruction's time (as in game files); times non-decreasing.",
+         "property-based differential testing + structural invariants"),
  "C11": ("Exhaustive operator x boundary-operand tables (bit-exact against M-ops), random constant trees, partially constant trees under AstVm before/after const_simplify over 8 valuations, const chains (named vs inlined lowering, debug-info values, cycles, undefined operations must be diagnosed).",
          "Logical operators compared by truthiness only; float->int casts outside i32 excluded; NaN payloads not compared.",
          "exhaustive boundary tables + property-based testing against a reference evaluator"),
